@@ -32,6 +32,12 @@ thread_local! {
 
 unsafe extern "C" {
     fn syscall(num: std::ffi::c_long, ...) -> std::ffi::c_long;
+    fn fork() -> i32;
+    fn dup(fd: i32) -> i32;
+    fn dup2(old: i32, new: i32) -> i32;
+    fn open(path: *const std::ffi::c_char, flags: i32, ...) -> i32;
+    fn waitpid(pid: i32, status: *mut i32, options: i32) -> i32;
+    fn _exit(code: i32) -> !;
 }
 const SYS_GETRANDOM: std::ffi::c_long = 318; // x86_64
 
@@ -786,6 +792,17 @@ fn run_one(spec: &Value) -> Value {
 }
 
 pub fn main() -> Result<(), Box<dyn Error>> {
+    // The analysis prints LALR conflict reports to stdout: keep the record stream on a
+    // descriptor of our own and point fd 1 at /dev/null.
+    let mut proto: std::fs::File = unsafe {
+        let saved = dup(1);
+        let devnull = open(c"/dev/null".as_ptr(), 1 /* O_WRONLY */);
+        if saved < 0 || devnull < 0 {
+            return Err("cannot set up the record stream".into());
+        }
+        dup2(devnull, 1);
+        <std::fs::File as std::os::fd::FromRawFd>::from_raw_fd(saved)
+    };
     verif_sync::install(Box::new(TokenSched));
     std::panic::set_hook(Box::new(|info| {
         let msg = if let Some(s) = info.payload().downcast_ref::<&str>() {
@@ -805,8 +822,29 @@ pub fn main() -> Result<(), Box<dyn Error>> {
             }
         });
     }));
+    // Optional warm-up in the parent (one fixed history under a fixed hash key, all threads
+    // finished before the first fork): every child then inherits the *same* initialised
+    // process-global state.  Measured: forking the warmed (larger) parent costs more than the
+    // initialisation it saves, so it is off by default.
+    if std::env::var_os("PAROL_LS_SIM_WARMUP").is_some() {
+        let u = "file:///warmup.par";
+        let pos = json!({"line": 2, "character": 1});
+        let warm = json!({"run": "warmup", "hash_seed": 7, "max_k": 2, "sched": {"mode": "canonical"}, "ops": [
+            {"t": "open", "uri": u, "version": 1, "text": "%start S\n%%\nS: A \"x\" | B \"y\"; // c\nA: \"a\" A | ;\nB: \"a\" B | ;\n"},
+            {"t": "req", "id": 1, "method": "textDocument/hover", "params": {"textDocument": {"uri": u}, "position": pos}},
+            {"t": "req", "id": 2, "method": "textDocument/definition", "params": {"textDocument": {"uri": u}, "position": pos}},
+            {"t": "req", "id": 3, "method": "textDocument/documentSymbol", "params": {"textDocument": {"uri": u}}},
+            {"t": "req", "id": 4, "method": "textDocument/prepareRename", "params": {"textDocument": {"uri": u}, "position": pos}},
+            {"t": "req", "id": 5, "method": "textDocument/rename", "params": {"textDocument": {"uri": u}, "position": pos, "newName": "Q"}},
+            {"t": "req", "id": 6, "method": "textDocument/formatting", "params": {"textDocument": {"uri": u}, "options": {"tabSize": 4, "insertSpaces": true}}},
+            {"t": "req", "id": 7, "method": "textDocument/codeAction", "params": {"textDocument": {"uri": u}, "range": {"start": pos, "end": pos}, "context": {"diagnostics": [{"range": {"start": pos, "end": pos}, "message": "scanner 'X'", "code": "parol::parser::token_not_in_scanner"}]}}},
+            {"t": "change", "uri": u, "version": 2, "text": "%start S\n%grammar_type 'lalr(1)'\n%%\nS: \"i\" S | \"i\" S \"e\" S | \"x\";\n"},
+            {"t": "change", "uri": u, "version": 3, "text": "%start S\n%%\nS: S \"a\" | ;;\n"},
+            {"t": "close", "uri": u}
+        ]});
+        let _ = run_one(&warm);
+    }
     let stdin = std::io::stdin();
-    let stdout = std::io::stdout();
     for line in stdin.lock().lines() {
         let line = line?;
         if line.trim().is_empty() {
@@ -815,22 +853,35 @@ pub fn main() -> Result<(), Box<dyn Error>> {
         let spec: Value = match serde_json::from_str(&line) {
             Ok(v) => v,
             Err(e) => {
-                let mut o = stdout.lock();
-                writeln!(o, "{}", json!({"harness_error": format!("bad spec: {e}")}))?;
-                o.flush()?;
+                writeln!(proto, "{}", json!({"harness_error": format!("bad spec: {e}")}))?;
+                proto.flush()?;
                 continue;
             }
         };
-        let rec = run_one(&spec);
-        let fatal = rec["watchdog"].as_bool() == Some(true) || rec["deadlock"].as_bool() == Some(true);
-        {
-            let mut o = stdout.lock();
-            writeln!(o, "{}", serde_json::to_string(&rec)?)?;
-            o.flush()?;
-        }
-        if fatal {
-            // threads of this run are parked forever: the process cannot be reused
-            std::process::exit(3);
+        // Every run executes in a fresh child forked from this (single-threaded, pristine)
+        // process: process-global lazily initialised state (compiled regexes, scanner tables,
+        // ...) would otherwise make a run depend on which runs the process executed before
+        // (their initialisation draws RandomState keys on whichever thread comes first).
+        // It also means that parked threads of a deadlocked run simply vanish with the child.
+        let pid = unsafe { fork() };
+        if pid == 0 {
+            let rec = run_one(&spec);
+            let fatal = rec["watchdog"].as_bool() == Some(true) || rec["deadlock"].as_bool() == Some(true);
+            let _ = writeln!(proto, "{}", serde_json::to_string(&rec).unwrap_or_default());
+            let _ = proto.flush();
+            unsafe { _exit(if fatal { 3 } else { 0 }) };
+        } else if pid > 0 {
+            let mut status = 0i32;
+            unsafe { waitpid(pid, &mut status, 0) };
+            let exited_ok = (status & 0x7f) == 0 && matches!((status >> 8) & 0xff, 0 | 3);
+            if !exited_ok {
+                // the child died without writing a record (abort, stack overflow, signal)
+                writeln!(proto, "{}", json!({"run": spec["run"], "child_died": status, "main": {"exit": format!("abort:status={status}"), "msgs_seen": 0}, "out": [], "threads": []}))?;
+                proto.flush()?;
+            }
+        } else {
+            writeln!(proto, "{}", json!({"harness_error": "fork failed"}))?;
+            proto.flush()?;
         }
     }
     Ok(())
